@@ -292,20 +292,26 @@ func runCtxFields(p *core.Prog) *core.Result {
 	// otherwise a suspension with nothing to save keeps the previous suspension's records
 	for _, n := range en {
 		key := "execCtx." + n + ":suspend-total"
-		total := false
-		for _, s := range fieldStores(suspend) {
-			if s.base != ectxT || s.field.Name() != n {
-				continue
-			}
-			all := true
-			for _, b := range suspend.Blocks {
-				if r, ok := b.Instrs[len(b.Instrs)-1].(*ssa.Return); ok && !core.InstrDominates(s.in, r) {
-					all = false
+		slotName := n
+		total := true
+		nRet := 0
+		for _, b := range suspend.Blocks {
+			if _, ok := b.Instrs[len(b.Instrs)-1].(*ssa.Return); ok {
+				nRet++
+				if !allPathsPass(suspend, b, func(in ssa.Instruction) bool {
+					st, ok := in.(*ssa.Store)
+					if !ok {
+						return false
+					}
+					fa, ok := st.Addr.(*ssa.FieldAddr)
+					return ok && core.NamedOf(fa.X.Type()) == ectxT && core.FieldOf(fa).Name() == slotName
+				}) {
+					total = false
 				}
 			}
-			if all {
-				total = true
-			}
+		}
+		if nRet == 0 {
+			total = false
 		}
 		if total {
 			res.OK(key, p.Pos(suspend.Pos()), "stored on every path through suspend")
